@@ -181,8 +181,9 @@ ENTITY_DOCS = [
 
 
 # Namespace names are written into the script as they are ({uri}name, and the uri of insert-namespace); a comma in
-# one (legal in a URI: the tag: scheme of RFC 4151 has one in every name) is read as a field separator by DiffParser:
-# open known finding `namespace-uri-with-comma`, found in session 3 by a sub-agent writing seeded changes.
+# one (legal in a URI: the tag: scheme of RFC 4151 has one in every name) used to be read as a field separator by
+# DiffParser (found in session 3 by a sub-agent writing seeded changes; repaired in /repo: "fix: DiffParser splits a
+# namespace URI at its commas").  Regression stream.
 TAGURI = "tag:example.org,2005:x"
 COMMA_URI_DOCS = [
     ('<a xmlns:p="%s"><p:b/></a>' % TAGURI, '<a xmlns:p="%s"><p:c/></a>' % TAGURI),                  # rename
@@ -203,16 +204,6 @@ PREFIX_DOCS = [
 ] + [
     ('<r xmlns:ns="urn:n"><ns:a/></r>', '<r xmlns:ns="urn:n"><ns:a><ns:b ns:k="1"/></ns:a><ns:c/></r>'),
 ]
-
-
-def comma_uri_key(l, r, why):
-    """finding key for the known class: some namespace URI of the documents holds a comma AND the failure is the parser
-    counting the fields of a line wrongly (anything else on such documents is reported)"""
-    from lxml import etree
-    uris = {u for x in (l, r) for e in etree.fromstring(x).iter() for u in (e.nsmap or {}).values()}
-    if any("," in u for u in uris) and "TypeError" in why and "positional argument" in why:
-        return "namespace-uri-with-comma"
-    return None
 
 
 def oracle_pipeline_text(l, r, what="documents with an internal DTD subset"):
@@ -257,11 +248,13 @@ def main(run):
         cases.append(term); descr.append(d); kinds[kind] = kinds.get(kind, 0) + 1
 
     # -- 1. unit functions on an exhaustive critical alphabet -------------------
-    alpha = ['a', ',', '"', '\\', ' ', '\n', '\r', 'u', 'n', '0', '\x85', '\x1c'] if quick else \
-        ['a', ',', '"', '\\', ' ', '\n', '\r', 'u', 'n', '0', '\x85', '\x1c', '\t', '[', ']', ' ', '-', '\x7f']
+    alpha = ['a', ',', '"', '\\', ' ', '\n', '\r', 'u', 'n', '0', '\x85', '\x1c', '{', '}'] if quick else \
+        ['a', ',', '"', '\\', ' ', '\n', '\r', 'u', 'n', '0', '\x85', '\x1c', '{', '}', '\t', '[', ']', ' ', '-', '\x7f']
     maxlen = 3
     strs = [''.join(t) for n in range(maxlen + 1) for t in itertools.product(alpha, repeat=n)]
     strs += [gen.rand_str(rng, gen.CRIT, 12) for _ in range(300 if quick else 3000)]
+    # fields the way the formatter writes them: blank, then a Clark name whose namespace part is arbitrary
+    strs += ["".join(rng.choice([' ', '{', '}', ',', '"', 'a', ' {', ', ', '\\']) for _ in range(rng.randint(2, 9))) for _ in range(300 if quick else 3000)]
     from xmldiff.utils import cleanup_whitespace
     from xmldiff.patch import DiffParser
     for s in strs:
@@ -369,7 +362,7 @@ def main(run):
     for l_, r_ in COMMA_URI_DOCS:
         w = oracle_pipeline_text(l_, r_, "documents whose namespace name contains a comma")
         if w:
-            viols.append({"what": w, "replay": {"kind": "pipeline-text", "left": l_, "right": r_, "finding_key": comma_uri_key(l_, r_, w)}})
+            viols.append({"what": w, "replay": {"kind": "pipeline-text", "left": l_, "right": r_}})
     npipe = 150 if quick else 2000
     for _ in range(npipe):
         if rng.random() < .25:     # tag and attribute names that look like JSON literals / action keywords
